@@ -3,6 +3,9 @@ full_moon 1.2 for each syntax. Used ONLY to replay solver models on the native b
 the corpus supplies a program that contains it). Never the deciding step of a check."""
 
 LUA51 = {
+    "unicode-comments": "-- NOTE \u521d\u59cb\u5316\u914d\u7f6e\u5e76\u52a0\u8f7d\u6240\u6709\u6a21\u5757\nlocal x = 1\n-- gr\u00f6\u00dfer als h\u00f6chste Eintr\u00e4ge\nlocal y = '\u00fc'\n"
+                        "--[[ R\u00e9sum\u00e9 de l\u2019\u00e9l\u00e9ment renvoy\u00e9\n   \u00e0 la ligne ]]\nlocal t = {\n\t-- cl\u00e9 \u2192 valeur \u00e9tendue ici\n\tk = 1,\n}\nreturn x -- \u7d42\u308f\u308a\n",
+    "empty-bodies": "if queue.paused then end\nif (DEBUG) then end\nwhile x do end\nlocal f = function() end\nfor i = 1, 2 do end\nrepeat until x\ndo end\n",
     "assign": "a = 1\na, b = b, a\na.b.c = 2\na[1] = 3\na['k'] = 4\n",
     "local": "local a\nlocal b, c = 1\nlocal d, e = f()\nlocal s = 'x' .. \"y\" .. [[z]] .. [==[w]==]\n",
     "calls": "f()\nf(1, 2)\nf 'x'\nf \"y\"\nf [[z]]\nf { 1, 2 }\nf({ 1 }, 'x')\nobj:m()\nobj:m 'x'\nobj:m { 1 }\nobj.a.b:c(1)(2)[3].d()\n(f or g)()\n(f)()\n",
